@@ -19,6 +19,42 @@ CHECKS = {
              '(C01) nor exactness of the conflict *set* beyond per-cell bookkeeping. Trusted: ' + TB,
         technique='MIR path-table extraction (custom rustc_private driver) + finite-model comparison with the specification table',
         ref='§4 C03'),
+    'C04': dict(
+        level='other',
+        text='Driver-side clauses only: with recovery off an Error action yields exactly one ParseError (the state just looked '
+             'up, the lexeme at the very input index used for the lookup, no repairs), no recoverer call and no value; the '
+             'end-of-input lexeme is a faulty zero-length EOF lexeme at the end of the last real lexeme; action() is a pure '
+             'decode of the table cell.',
+        note='That the state the parser is in rejects exactly at the viable-prefix boundary is table correctness (C01) and is NOT decided. Trusted: ' + TB,
+        technique='symbolic path tables of the LR driver arms extracted from MIR, compared with the specification',
+        ref='§4 C04'),
+    'C05': dict(
+        level='other',
+        text='Inserted tokens are materialised as zero-length faulty lexemes at the start of the next real lexeme and fed to one LR '
+             'step over [laidx, laidx+1) in both search and replay; success criterion (3 trailing shifts or Accept) with a single '
+             'constant; the sequence replayed on the real stacks is element 0 of the returned vector; the three copies of the LR '
+             'step (driver, replay, search) agree on lookup key, reduce, shift and accept/error behaviour.',
+        note='Validity of every reconstructed sequence and equality of the final value with a re-parse are search results over runtime stacks and are NOT decided. Trusted: ' + TB,
+        technique='symbolic path tables + sibling agreement between duplicated LR-step implementations in MIR',
+        ref='§4 C05'),
+    'C07': dict(
+        level='other',
+        text='Driver table with recovery on (one recover call, one error carrying its repairs, None iff repairs are empty, else '
+             'continue at the returned index); budget only shrinks and bounds the deadline; every cycle of every loop in the '
+             'recovery cone is deadline-tested, iterator driven, counter bounded or consuming; every give-up exit of recover '
+             'returns (unchanged index, no repairs).',
+        note='Strictly increasing error positions three lexemes apart depend on what the search finds and are NOT decided. Trusted: ' + TB,
+        technique='symbolic path tables of the driver, per-cycle classification of recovery loops (deadline / iterator / counter / consuming) in MIR',
+        ref='§4 C07'),
+    'C08': dict(
+        level='other',
+        text='Exactly one action call and one push of its result per reduction; argument provenance (rule of the production, '
+             'lexer, the very span pushed on the span stack, the drained child values, a clone of the parameter); the '
+             'hand-duplicated reduce code of driver and replay is compared with each other after replacing stacks by role '
+             'symbols; generic-tree mapping order.',
+        note='The span VALUES (e.g. zero-length for an empty production) are NOT decided. Trusted: ' + TB,
+        technique='sibling agreement on canonicalised symbolic terms + exactly-once path counting in MIR',
+        ref='§4 C08'),
     'C10': dict(
         level='other',
         text='One structural clause only: "numbered densely from zero, every index the API returns is in range". Fields of the '
